@@ -74,6 +74,63 @@ pub fn battery(seed: u64, size: usize) -> Vec<(String, u64)> {
             out.push((format!("{}/n={}/m={}/#{}", k.name(), n, m, rep), digest_u64s(&s.bits())));
         }
     }
+    // ---- two live instances fed in lockstep must not influence each other ("any number of instances"):
+    // digest = xor of (lockstep digest, alone digest) for both instances, must be 0
+    for (ki, k) in kinds.iter().enumerate() {
+        for rep in 0..size.min(6) {
+            let n = [1usize, 2, 40, 400][(rep + ki) % 4];
+            let m = [1usize, 16, 128, 300][(rep + 3 * ki) % 4];
+            let a = if k.is_nohash() { ids_with_specials(&mut rng, n) } else { fresh_ids(&mut rng, n, 0) };
+            let b = fresh_ids(&mut rng, n, 0);
+            let alone = |xs: &[u64]| {
+                let mut s = make_usk(*k, m);
+                for d in xs {
+                    s.sketch(*d);
+                }
+                s.finish();
+                digest_u64s(&s.bits())
+            };
+            let (da, db) = (alone(&a), alone(&b));
+            let mut sa = make_usk(*k, m);
+            let mut sb = make_usk(*k, m);
+            for i in 0..n {
+                sa.sketch(a[i]);
+                sb.sketch(b[i]);
+            }
+            sa.finish();
+            sb.finish();
+            let x = (digest_u64s(&sa.bits()) ^ da) | (digest_u64s(&sb.bits()) ^ db);
+            out.push((format!("{}/lockstep-vs-alone/n={}/m={}/#{}", k.name(), n, m, rep), x));
+        }
+    }
+    // same for the item-wise ProbMinHash variants
+    for rep in 0..size.min(6) {
+        use probminhash::probminhasher::{ProbMinHash2, ProbMinHash3};
+        let n = [1usize, 3, 30, 200][rep % 4];
+        let m = [2usize, 8, 64, 256][(rep + 1) % 4];
+        let wa: Vec<(u64, f64)> = fresh_ids(&mut rng, n, 0).into_iter().map(|d| (d, rng.random_range(0.1..10.))).collect();
+        let wb: Vec<(u64, f64)> = fresh_ids(&mut rng, n, 0).into_iter().map(|d| (d, rng.random_range(0.1..10.))).collect();
+        let (ra, _) = pmh(Pv::P2, Hs::Fnv, m, &wa, Entry::Item, 0);
+        let (rb, _) = pmh(Pv::P2, Hs::Fnv, m, &wb, Entry::Item, 0);
+        let mut s1 = ProbMinHash2::<u64, FnvHasher>::new(m, 0);
+        let mut s2 = ProbMinHash2::<u64, FnvHasher>::new(m, 0);
+        for i in 0..n {
+            s1.hash_item(wa[i].0, wa[i].1);
+            s2.hash_item(wb[i].0, wb[i].1);
+        }
+        let x = (digest_u64s(s1.get_signature()) ^ digest_u64s(&ra)) | (digest_u64s(s2.get_signature()) ^ digest_u64s(&rb));
+        out.push((format!("pmh2/lockstep-vs-alone/n={}/m={}/#{}", n, m, rep), x));
+        let (ra, _) = pmh(Pv::P3, Hs::Fnv, m, &wa, Entry::Item, 0);
+        let (rb, _) = pmh(Pv::P3, Hs::Fnv, m, &wb, Entry::Item, 0);
+        let mut s1 = ProbMinHash3::<u64, FnvHasher>::new(m, 0);
+        let mut s2 = ProbMinHash3::<u64, FnvHasher>::new(m, 0);
+        for i in 0..n {
+            s1.hash_item(wa[i].0, &wa[i].1);
+            s2.hash_item(wb[i].0, &wb[i].1);
+        }
+        let x = (digest_u64s(s1.get_signature()) ^ digest_u64s(&ra)) | (digest_u64s(s2.get_signature()) ^ digest_u64s(&rb));
+        out.push((format!("pmh3/lockstep-vs-alone/n={}/m={}/#{}", n, m, rep), x));
+    }
     out
 }
 
@@ -94,6 +151,11 @@ pub fn run(rep: &mut Report) {
     rep.sample(json!({"case": reference[0].0, "digest": format!("{:#x}", reference[0].1)}));
     rep.sample(json!({"case": reference[reference.len() / 2].0, "digest": format!("{:#x}", reference[reference.len() / 2].1)}));
     let mut mismatches: BTreeMap<String, Vec<String>> = BTreeMap::new();
+    for (name, d) in &reference {
+        if name.contains("lockstep-vs-alone") && *d != 0 {
+            mismatches.entry(name.clone()).or_default().push("two live instances fed alternately give other sketches than the same instances fed alone".to_string());
+        }
+    }
     let mut compare = |who: &str, other: &[(String, u64)], mism: &mut BTreeMap<String, Vec<String>>| {
         if other.len() != reference.len() {
             mism.entry("battery-length".into()).or_default().push(format!("{} produced {} cases instead of {}", who, other.len(), reference.len()));
